@@ -110,4 +110,45 @@ def run(prop, pcfg, cfg, results, seed):
                 killed += 1 if caught else 0
                 detail.append(rec)
     info["mutants_total"], info["mutants_killed"], info["mutants"] = total, killed, detail
+
+    # ---- 4. behaviour-preserving changes (/verif/neutral/<id>/patch.diff): this check must not report a violation
+    ndir = os.path.join(VERIF, "neutral")
+    alarms, ndetail = 0, []
+
+    def neutral_one(name):
+        patch = os.path.join(ndir, name, "patch.diff")
+        d = tempfile.mkdtemp(prefix="verif-neutral.")
+        try:
+            shutil.copytree(os.path.join(repo, "src"), os.path.join(d, "src"))
+            for f in ("Cargo.toml", "Cargo.lock"):
+                shutil.copy(os.path.join(repo, f), os.path.join(d, f))
+            p = subprocess.run(["patch", "-s", "-p1", "-i", patch], cwd=d, stdout=subprocess.PIPE, stderr=subprocess.STDOUT)
+            if p.returncode != 0:
+                return {"change": name, "result": "patch does not apply to the tree under check"}
+            env = dict(os.environ, VERIF_REPO=d, VERIF_OUT_DIR=os.path.join(d, "out"), VERIF_NO_SELFTEST="1", VERIF_TIER="quick")
+            env.pop("VERIF_DEEP", None)
+            q = subprocess.run([sys.executable, os.path.join(VERIF, "check"), prop, "--tier", "quick"], env=env,
+                               stdout=subprocess.PIPE, stderr=subprocess.STDOUT, timeout=3600)
+            return {"change": name, "exit": q.returncode, "result": {0: "OK", 1: "FALSE ALARM", 2: "undecided"}.get(q.returncode, "?")}
+        finally:
+            shutil.rmtree(d, ignore_errors=True)
+
+    if os.path.isdir(ndir) and not os.environ.get("VERIF_NO_SELFTEST"):
+        # only changes that touch a file this property's units read
+        unit_files = set()
+        for r in results:
+            for f in r.extracted:
+                unit_files.add(f.get("file"))
+        names = []
+        for n in sorted(os.listdir(ndir)):
+            mp = os.path.join(ndir, n, "meta.json")
+            if os.path.exists(mp) and set(json.load(open(mp)).get("files", [])) & unit_files:
+                names.append(n)
+        from concurrent.futures import ThreadPoolExecutor
+        with ThreadPoolExecutor(max_workers=3) as ex:
+            for rec in ex.map(neutral_one, names):
+                ndetail.append(rec)
+                if rec.get("exit") == 1:
+                    alarms += 1
+    info["neutral_total"], info["neutral_false_alarms"], info["neutral"] = len(ndetail), alarms, ndetail
     return violations, undecided, info
